@@ -133,6 +133,10 @@ class Check(BaseCheck):
                 fails.append(core.Failure("correspondence", "level_length vs model", "%s: impl %s" % (case["name"], str(res)[:80]), case))
             if single:
                 npnt = case["n_points"]
+                if npnt == 12:      # the natural number of points of this curve (coincidence must not switch resampling off)
+                    r0 = core.call(m.level_path, f, level_arg(case, levels[:1]))
+                    npnt = len(r0[1][0]) if r0[0] == "ok" else npnt
+                    stats.monitor("level_path with n_points = natural point count")
                 rp = wire.Reply(drv.ask("level_path %s %s %s %s %d" % (wire.verts(v), wire.elems(t), wire.rawfloats(f), wire.fhex(levels[0]), npnt)))
                 if npnt:
                     res = core.call(m.level_path, f, level_arg(case, levels[:1]), False, npnt)
@@ -204,6 +208,12 @@ class Check(BaseCheck):
             poly = np.sum(np.linalg.norm(np.diff(pts, axis=0), axis=1))
             if poly > ln + 1e-9 or poly < ln - (merged + 1) * 1e-3 - 1e-9:
                 return core.Violation("level_path", "points are not in order along the curve (polyline %.6g vs length %.6g)" % (poly, ln), case)
+            for n in (7, len(pts)):
+              r2 = core.call(m.level_path, f, levels[0], False, n)
+              if n == len(pts) and r2[0] == "ok" and len(pts) > 3:
+                rq = np.asarray(r2[1][0]); dq = np.linalg.norm(np.diff(rq, axis=0), axis=1); d0 = np.linalg.norm(np.diff(pts, axis=0), axis=1)
+                if np.ptp(d0) > 0.3 * d0.mean() and np.allclose(rq, pts):
+                    return core.Violation("resample", "n_points equal to the number of crossing points returns the unresampled points (not equally spaced)", case)
             n = 7
             r2 = core.call(m.level_path, f, levels[0], False, n)
             if r2[0] != "ok" or len(r2[1][0]) != n:
